@@ -4,6 +4,7 @@
 From Coq Require Import List ZArith Bool Arith Permutation.
 Import ListNotations.
 From RV Require Import Lib.Str Model.Report Proofs.ReportP.
+From RV Require Import Gen.GenFactsCodespeed.
 
 (** Up to four runs: the table has one row per run, all columns, nothing else. *)
 Theorem C18_rows_small :
@@ -54,6 +55,16 @@ Proof.
   split; [reflexivity|]. split; [exact mean_cell_failed|]. split; [exact round_half_even_near | exact round_half_even_tie].
 Qed.
 Print Assumptions C18_cells.
+
+(** Codespeed: read off CodespeedReporter._format_for_codespeed on every run - when the run has statistics and did not fail,
+    the fields min, max, std_dev and result_value carry the minimum, maximum, standard deviation and mean of the run's statistics
+    object (the one whose streaming values C15 proves equal to the textbook values of the same samples); otherwise result_value
+    is -1; no later statement of the method overwrites them. *)
+Theorem C18_codespeed_fields :
+  codespeed_fields = [(FMin, SMin); (FMax, SMax); (FStdDev, SStdDev); (FResultValue, SMean)]
+  /\ codespeed_failed_value = (-1)%Z /\ codespeed_template_has_the_fields = true.
+Proof. repeat split; reflexivity. Qed.
+Print Assumptions C18_codespeed_fields.
 
 (** Non-vacuity: five runs, executor and suite uniform, one failed run. *)
 Example C18_example :
